@@ -57,6 +57,9 @@ impl Base {
     pub fn new(n_actors: usize, start_ledger: u32, min_temp_ttl: u32) -> Base {
         let e = Env::default();
         e.cost_estimate().disable_resource_limits();
+        // the host meters CPU and memory per invocation; a simulated history is not a priced transaction, and a probe over
+        // several contexts and many policies can exceed the default budget (seen once in 30 000 thorough histories)
+        e.cost_estimate().budget().reset_unlimited();
         e.ledger().with_mut(|li| {
             li.sequence_number = start_ledger;
             li.timestamp = 1_700_000_000;
